@@ -1681,7 +1681,15 @@ class OperatorLeftScalarMult(Operator):
         if not self.is_linear:
             raise OpNotImplementedError('nonlinear operators have no adjoint')
 
-        return self.scalar.conjugate() * self.operator.adjoint
+        scalar_conj = self.scalar.conjugate()
+        if complex(scalar_conj).imag == 0:
+            # Real scalars commute with every (real-)linear operator
+            return scalar_conj * self.operator.adjoint
+        else:
+            # The adjoint of ``x --> s * A(x)`` is ``y --> A^*(conj(s) * y)``,
+            # which equals ``conj(s) * A^*(y)`` only for complex-linear
+            # ``A^*`` (not for, e.g., `RealPart` or `ComplexEmbedding`)
+            return OperatorRightScalarMult(self.operator.adjoint, scalar_conj)
 
     def __repr__(self):
         """Return ``repr(self)``."""
@@ -1865,7 +1873,9 @@ class OperatorRightScalarMult(Operator):
         if not self.is_linear:
             raise OpNotImplementedError('nonlinear operators have no adjoint')
 
-        return self.operator.adjoint * self.scalar.conjugate()
+        # The adjoint of ``x --> A(s * x)`` is ``y --> conj(s) * A^*(y)``
+        return OperatorLeftScalarMult(self.operator.adjoint,
+                                      self.scalar.conjugate())
 
     def __repr__(self):
         """Return ``repr(self)``."""
